@@ -14,20 +14,47 @@ let req_tbl : (string, string) Hashtbl.t = Hashtbl.create 16
 let async = ref false
 
 let decode (b : n list) : msg option = Hashtbl.find_opt decode_tbl (hex_of_bytes b)
-let method_kind (nm : n list) : n =
-  match hex_of_bytes nm with
-  | "4563686f" (* Echo *) | "4661696c65644563686f" (* FailedEcho *) -> n_of_int 1
-  | "53747265616d" (* Stream *) -> n_of_int 2
+(* service 0: none; 1: the TestService mock [Echo, FailedEcho, Stream (streaming)]; 2: the OlaServerService
+   mock [GetPlugins, GetDmx, StreamDmxData (streaming); its other methods are not exercised] *)
+let method_kind (sv : n) (nm : n list) : n =
+  match int_of_n sv, hex_of_bytes nm with
+  | 0, _ -> n_of_int 3
+  | 1, ("4563686f" (* Echo *) | "4661696c65644563686f" (* FailedEcho *)) -> n_of_int 1
+  | 1, "53747265616d" (* Stream *) -> n_of_int 2
+  | 2, ("476574506c7567696e73" (* GetPlugins *) | "476574446d78" (* GetDmx *)) -> n_of_int 1
+  | 2, "53747265616d446d7844617461" (* StreamDmxData *) -> n_of_int 2
   | _ -> N0
-let no_service (_ : n list) : n = n_of_int 3   (* the channel was given no service *)
-let req_ok (b : n list) : bool = Hashtbl.mem req_tbl (hex_of_bytes b)
-let service (nm : n list) (req : n list) : sres option =
+let req_ok (sv : n) (b : n list) : bool =
+  if int_of_n sv = 2 then (match hex_of_bytes b with "-" | "0801" | "0801120164" -> true | _ -> false)
+  else Hashtbl.mem req_tbl (hex_of_bytes b)
+let service (sv : n) (nm : n list) (req : n list) : sres option =
+  if int_of_n sv = 2 then
+    (match hex_of_bytes nm with
+     | "476574446d78" -> Some (SReply (bytes_of_hex "0801120164"))    (* GetDmx: DmxData{1, "d"} *)
+     | _ -> Some (SReply []))                                         (* GetPlugins: an empty list *)
+  else
   match hex_of_bytes nm with
   | "53747265616d" -> Some (SReply [])   (* Stream called through a plain REQUEST: empty reply message *)
   | _ when !async -> None
-  | "4661696c65644563686f" -> Some (SFail (bytes_of_hex "4572726f72")) (* "Error" *)
+  | "4661696c65644563686f" ->
+    (* the failure text is the request's data ("Error" if it has none): the reply entry is 0a <len> data *)
+    let rp = bytes_of_hex (try Hashtbl.find req_tbl (hex_of_bytes req) with Not_found -> "-") in
+    let rec skip_varint l = match l with x :: r -> if int_of_n x >= 128 then skip_varint r else r | [] -> [] in
+    let data = match rp with _ :: r -> skip_varint r | [] -> [] in
+    Some (SFail (if data = [] then bytes_of_hex "4572726f72" else data))
   | _ -> Some (SReply (bytes_of_hex (try Hashtbl.find req_tbl (hex_of_bytes req) with Not_found -> "-")))
 
+(* hex for reporting: long strings are reported as #<length>.<adler32-style digest> *)
+let lhex (l : n list) : string =
+  let len = List.length l in
+  if len <= 100 then hex_of_bytes l
+  else begin
+    let a = ref 1 and b = ref 0 in
+    List.iter (fun x -> a := (!a + int_of_n x) mod 65521; b := (!b + !a) mod 65521) l;
+    Printf.sprintf "#%d.%d" len (!b * 65536 + !a)
+  end
+let msg_out (m : msg) =
+  Printf.sprintf "%d:%s:%s:%s" (int_of_n m.m_type) (string_of_n m.m_id) (hex_of_bytes m.m_name) (lhex m.m_buf)
 let msg_s (m : msg) =
   Printf.sprintf "%d:%s:%s:%s" (int_of_n m.m_type) (string_of_n m.m_id) (hex_of_bytes m.m_name) (hex_of_bytes m.m_buf)
 
@@ -40,13 +67,14 @@ let encode (m : msg) : n list =
   [n_of_int (l land 255); n_of_int ((l lsr 8) land 255); n_of_int ((l lsr 16) land 255); n_of_int 16] @ body
 
 type chan = { mutable f : frame; mutable r : rpc; counts : int array; mutable nclose : int;
-              mutable hazard : string; mk : n list -> n }
+              mutable hazard : string }
 
-let new_chan mk = { f = init_frame; r = init_rpc; counts = Array.make 7 0; nclose = 0; hazard = ""; mk = mk }
+let new_chan (sv : int) = { f = init_frame; r = { init_rpc with svc = n_of_int sv }; counts = Array.make 7 0;
+                            nclose = 0; hazard = "" }
 
 (* run one op on a channel; returns (spec string, internal string, messages sent) *)
 let do_op (c : chan) (o : op) (show_sent : bool) : string * string * msg list =
-  let ((f', r'), evs) = step decode c.mk req_ok service c.f c.r o in
+  let ((f', r'), evs) = step decode method_kind req_ok service c.f c.r o in
   c.f <- f'; c.r <- r';
   let dn = Buffer.create 32 and sn = Buffer.create 32 and sv = Buffer.create 32 in
   let sent = ref [] in
@@ -61,10 +89,10 @@ let do_op (c : chan) (o : op) (show_sent : bool) : string * string * msg list =
        | 1 -> c.counts.(1) <- c.counts.(1) + 1 | 2 -> c.counts.(2) <- c.counts.(2) + 1
        | 3 -> c.counts.(3) <- c.counts.(3) + 1 | 4 -> c.counts.(4) <- c.counts.(4) + 1
        | 5 -> c.counts.(5) <- c.counts.(5) + 1 | 10 -> c.counts.(6) <- c.counts.(6) + 1 | _ -> ())
-    | EvDone (k, OReply b) -> Buffer.add_string dn (Printf.sprintf "|D%d:R:%s" (int_of_n k) (hex_of_bytes b))
-    | EvDone (k, OFailed t) -> Buffer.add_string dn (Printf.sprintf "|D%d:F:%s" (int_of_n k) (hex_of_bytes t))
-    | EvSend m -> sent := m :: !sent; if show_sent then Buffer.add_string sn ("|S" ^ msg_s m)
-    | EvService (nm, rq) -> Buffer.add_string sv (Printf.sprintf "|V%s:%s" (hex_of_bytes nm) (hex_of_bytes rq))
+    | EvDone (k, OReply b) -> Buffer.add_string dn (Printf.sprintf "|D%d:R:%s" (int_of_n k) (lhex b))
+    | EvDone (k, OFailed t) -> Buffer.add_string dn (Printf.sprintf "|D%d:F:%s" (int_of_n k) (lhex t))
+    | EvSend m -> sent := m :: !sent; if show_sent then Buffer.add_string sn ("|S" ^ msg_out m)
+    | EvService (nm, rq) -> Buffer.add_string sv (Printf.sprintf "|V%s:%s" (hex_of_bytes nm) (lhex rq))
     | EvChanClose -> c.nclose <- c.nclose + 1
     | _ -> ()) evs;
   (Buffer.contents dn ^ Buffer.contents sn ^ Buffer.contents sv, "", List.rev !sent)
@@ -76,11 +104,19 @@ let state_s (c : chan) =
 let internal_s (c : chan) =
   Printf.sprintf "e%dc%db%da%d" (int_of_n c.f.expected) (int_of_n c.f.current) (int_of_n c.f.bufsz) (int_of_n c.f.alloc)
 
-let call_of_code (code : string) : bool * n list * n list =
+let call_of_code (code_and_size : string) : bool * n list * n list =
+  (* a letter, optionally followed by the length of the request's data *)
+  let isdig c = c >= '0' && c <= '9' in
+  let k = ref 0 in
+  while !k < String.length code_and_size && not (isdig code_and_size.[!k]) do incr k done;
+  let code = String.sub code_and_size 0 !k in
+  let size = if !k < String.length code_and_size then ios (String.sub code_and_size !k (String.length code_and_size - !k)) else 1 in
+  let rec varint v = if v < 128 then [n_of_int v] else n_of_int (128 + v land 127) :: varint (v lsr 7) in
+  let echo = (n_of_int 10 :: varint size) @ List.init size (fun _ -> n_of_int 0x78) in
   match code with
-  | "" | "e" -> (false, bytes_of_hex "4563686f", bytes_of_hex "0a0178")
-  | "f" -> (false, bytes_of_hex "4661696c65644563686f", bytes_of_hex "0a0178")
-  | "t" -> (true, bytes_of_hex "53747265616d", bytes_of_hex "0a0178")
+  | "" | "e" -> (false, bytes_of_hex "4563686f", echo)
+  | "f" -> (false, bytes_of_hex "4661696c65644563686f", echo)
+  | "t" -> (true, bytes_of_hex "53747265616d", echo)
   | "g" -> (false, bytes_of_hex "476574506c7567696e73", [])                      (* GetPlugins *)
   | "x" -> (false, bytes_of_hex "476574446d78", bytes_of_hex "0801")               (* GetDmx *)
   | "u" -> (false, bytes_of_hex "47657455494473", bytes_of_hex "0801")             (* GetUIDs *)
@@ -104,10 +140,10 @@ let handle (p : string) : string =
   let gone = Array.make 16 false in       (* the client has hung up *)
   let deleted = Array.make 16 false in    (* the server deleted its channel *)
   (* multi-channel mode (M<n>): n independent channels; i<k> selects the channel of the following ops *)
-  let chans = Array.init nchan (fun _ -> new_chan (if two || nosvc then no_service else method_kind)) in
+  let chans = Array.init nchan (fun _ -> new_chan (if two || nosvc then 0 else 1)) in
   let cur = ref 0 in
   let a = chans.(0) in
-  let b = new_chan method_kind in
+  let b = new_chan 1 in
   let jam = Array.make 16 false in
   let held = Array.make 16 [] in
   let tag = ref "?" in
@@ -187,6 +223,7 @@ let handle (p : string) : string =
       | 'w' -> held.(!cur) <- held.(!cur) @ bytes_of_hex rest (* arrived, but the poller has not run yet *)
       | 'q' -> let c = chans.(!cur) in c.r <- { c.r with seq = n_of_string rest }
       | 'M' -> ()
+      | 'v' -> let (e, _, _) = do_op chans.(!cur) (OpSetService (n_of_string rest)) true in emit1 e   (* SetService *)
       | 'S' -> ()
       | 'i' -> cur := ios rest
       | 'c' | 'm' | 'k' ->
